@@ -1427,6 +1427,31 @@ def rep_subclass_instance(doc, ctx):
             ctx["changed"] = True
 
 
+def rep_option_validate_only(doc, ctx):
+    """serialize_multifield_wrapper serializes a value with the FIRST option whose _validate passes; _validate of the
+    sign classes (Positive/Negative/NonPositive/NonNegative...) is Number's -- the sign is only checked in __set__ --
+    so a value the option REJECTS (a positive int, e.g. a member of an enum.IntEnum accepted by a later Enum option) is
+    serialized by it, raw.  Counterfactual: the numeric options of multi-field wrappers without their sign-implied
+    bound (what the serializer's choice actually tests)."""
+    env = ctx["env"]
+
+    def fn(f, s_):
+        if f["t"] in ("anyof", "oneof", "allof") and not is_optional(f):
+            lst = s_.get({"allof": "allOf", "anyof": "anyOf", "oneof": "oneOf"}[f["t"]])
+            if not isinstance(lst, list):
+                return
+            for g, x in zip(f["fs"], lst):
+                if g["t"] == "num" and g["s"] != "Any" and isinstance(x, dict):
+                    if g["s"] in ("Positive", "NonNegative") and g.get("min") is None and "minimum" in x:
+                        del x["minimum"]
+                        ctx["changed"] = True
+                    if g["s"] in ("Negative", "NonPositive") and g.get("max") is None and "maximum" in x:
+                        del x["maximum"]
+                        x.pop("exclusiveMaximum", None)
+                        ctx["changed"] = True
+    class_walk(env, env.top, doc, doc, fn, set())
+
+
 def rep_positional_min(doc, ctx):
     """Array(items=[...]) / Tuple require at least len(items) elements; the export has no minItems."""
     def fn(s):
@@ -1441,6 +1466,7 @@ WF_REPAIRS = [("patternProperties-not-an-object-of-schemas", rep_patprops), ("re
               ("enum-entries-not-unique", rep_enum_dups)]
 # AST-aware repairs (they walk the declarations in parallel with the export) come before the ones that reshape it
 COMPLETE_REPAIRS = [("sign-dropped-under-explicit-bound", rep_sign),
+                    ("multi-field-value-serialized-by-an-option-that-rejects-it", rep_option_validate_only),
                     ("enum-member-among-literals-serialized-as-stored", rep_literal_member),
                     ("multi-field-option-stores-the-name-of-a-by-value-enum-member", rep_multifield_by_value_name),
                     ("sign-only-bound-rendered-as-epsilon", rep_eps), ("nested-field-wrapper", rep_wrapper),
